@@ -202,7 +202,8 @@ def user_callbacks(R, ctx):
                 continue
             held = sorted(h for h in la.may_held(p_, bb) if guard_kind(h) == 'lock')
             n += 1
-            key = f"{root_fn(p_)}|{what}"
+            # a deviation is identified by the lock and the kind of callback (the call site may move between helpers)
+            key = f"{root_fn(p_)}|{what}" if not held else f"under:{'+'.join(sorted({protected(h) for h in held}))}|{what}"
             R.check('R10.3', key, not held, "no non-reentrant lock held at the callback",
                     f"{p_} calls user code ({what}) while holding {[protected(h) for h in held]}: a callback that logs (e.g. a Display impl) dead-locks or re-enters the same lock",
                     where=b.loc(bb), witness=f"held: {held}")
